@@ -52,7 +52,7 @@ var nWorkers = 8
 
 func run(c *core.Ctx) error {
 	c.Trust("TLC 1.8; the projection of real output rows onto key tokens / row-id sets (harness); the reference aggregate functions and nested-loop join of the harness; zson parser/formatter for literals")
-	c.Assume("key universe {1, 1(uint64), 1., 2, 3, \"a\", missing, null(int64), null(string)} x secondary {0,1}; aggregate arguments are small non-zero int64 values, bools and records {a:int64|string} with nulls and absent fields (a sparse pass makes every argument of a key absent or null); inputs of at most MaxRows rows (see cfg); an input declared sorted is in pool order (nulls max, missing as null) or is the output of a real `sort`")
+	c.Assume("key universe {1, 1(uint64), 1., 2, 3, \"a\", missing, null(int64), null(string)} x secondary {0,1}; aggregate arguments are small non-zero int64 values, bools, records {a:int64|string} and a mixed-type argument m (int64/float64/string within one group, for collect/union) with nulls and absent fields; every aggregate result is compared as exact ZSON including its type (a sparse pass makes every argument of a key absent or null); inputs of at most MaxRows rows (see cfg); an input declared sorted is in pool order (nulls max, missing as null) or is the output of a real `sort`")
 	c.Rule("cases = finished behaviours of GroupBy.tla / MergeJoin.tla (input x batching x table limit x declared order x direct|partials; join kind x declared directions x key multiplicities), each replayed on the real operators; distinct by (case, replay mode); non-trivial = the real run spilled at least once, released rows before end of input, composed partials, or (join) produced at least one pair/outer row")
 	if c.Replay != "" {
 		return replay(c)
@@ -320,9 +320,9 @@ func sparsify(rows []inRow, seed int64) {
 		}
 		switch m {
 		case 0: // every argument absent
-			rows[i].V, rows[i].B, rows[i].F = "", "", ""
+			rows[i].V, rows[i].B, rows[i].F, rows[i].M = "", "", "", ""
 		case 1: // every argument null
-			rows[i].V, rows[i].B, rows[i].F = "null(int64)", "null(bool)", ""
+			rows[i].V, rows[i].B, rows[i].F, rows[i].M = "null(int64)", "null(bool)", "", "null(int64)"
 		}
 	}
 }
@@ -749,7 +749,7 @@ func judgeGB(c *core.Ctx, j *gbJob, r result) error {
 		case "real":
 			if len(flat) > 0 && len(flat[0].IDs) > 0 {
 				flat[0].IDs = flat[0].IDs[1:]
-				flat[0].Aggs["ids"] = "[" + strings.Trim(strings.ReplaceAll(idsKey(flat[0].IDs), " ", ","), "[]") + "]"
+				flat[0].Aggs["ids"] = "[" + strings.Trim(strings.ReplaceAll(idsKey(flat[0].IDs), " ", ","), "[]") + "]::[int64]"
 			}
 		}
 	}
